@@ -596,6 +596,60 @@ def gen_case(rng, kind):
     return {"kind": kind, "seeds": seeds, "ops": ops, "root": root, "cfg": cfg, "exact": kind != "float"}
 
 
+def kplus1_cases(rng, thorough):
+    """Lineages with EXACTLY k+1 minimal proofs for the configured k_initial = k (so the first round stops at the cap with an
+    empty frontier), k < k_max, threshold just above the lower bound of the k best proofs (inside the band, gain floor 0: the
+    controller wants to escalate), swept over EVERY node budget from 2 up to a value that fits the unbudgeted run: somewhere in
+    the sweep the k retained proofs compile and the k+1 proofs with the probe do not."""
+    den = 16
+    out = []
+    shapes = [(1, [1, 1]), (1, [1, 2]), (2, [1, 1, 1])]
+    if thorough:
+        shapes += [(1, [2, 2]), (2, [1, 1, 2]), (2, [2, 1, 2]), (3, [1, 1, 1, 1]), (3, [1, 2, 1, 1]), (1, [1, 3])]
+    for k, sizes in shapes:
+        for rep in range(3 if thorough else 1):
+            nlit = sum(sizes)
+            ids = sorted(rng.sample(range(0, 16), nlit))
+            # distinct proof probabilities (no ties in the best-first order): disjoint proofs over distinct seeds
+            while True:
+                nums = [rng.randint(2, 13) for _ in range(nlit)]
+                seeds = [[i, n, den, None] for i, n in zip(ids, nums)]
+                ops = [["lit", i] for i in ids]
+                refs, pos, probs = [], 0, []
+                for sz in sizes:
+                    lits = list(range(2 + pos, 2 + pos + sz))
+                    pr = F(1)
+                    for j in range(pos, pos + sz):
+                        pr *= F(nums[j], den)
+                    probs.append(pr)
+                    pos += sz
+                    if sz == 1:
+                        refs.append(lits[0])
+                    else:
+                        ops.append(["and", lits])
+                        refs.append(len(ops) + 1)
+                if len(set(probs)) == len(probs):
+                    break
+            ops.append(["or", refs])
+            root = len(ops) + 1
+            # lower bound of the k most probable proofs (disjoint seeds: 1 - prod(1 - p))
+            best = sorted(probs, reverse=True)[:k]
+            miss = F(1)
+            for pr in best:
+                miss *= 1 - pr
+            lower = 1 - miss
+            truth = quick_truth(seeds, ops, root)
+            thrs = [min(lower + F(1, 1024), truth)] + ([min(lower + F(1, 64), truth)] if thorough else [])
+            for thr in thrs:
+                for floor, band in ((F(0), F(0)), (F(2), F(1, 8))):
+                    # quick: the three small shapes need at most 10 nodes unbudgeted; thorough: up to 40
+                    for nodes in range(2, (40 if thorough else 14) + 1):
+                        cfg = {"thr": [thr.numerator, thr.denominator], "band": [band.numerator, band.denominator],
+                               "floor": [floor.numerator, floor.denominator], "k0": k, "kmax": 4 * k, "kg": 2, "nodes": nodes}
+                        out.append({"kind": "kp1", "seeds": seeds, "ops": ops, "root": root, "cfg": cfg, "exact": True})
+    return out
+
+
 def invalid_cfgs():
     base = {"thr": [1, 2], "band": [1, 50], "floor": [0, 1], "k0": 1, "kmax": 2, "kg": 2, "nodes": 1000}
     out = []
@@ -1044,6 +1098,9 @@ def run(ctx):
             c["clocks"] = [[rng.choice(vals) for _ in range(rng.randint(1, 40))] for _ in range(3)]
         ctx.sample({k: cs[0][k] for k in ("kind", "seeds", "ops", "root", "cfg")}, limit=12)
         batch += cs
+    kp1 = kplus1_cases(rng, ctx.thorough)
+    ctx.sample({k: kp1[1][k] for k in ("kind", "seeds", "ops", "root", "cfg")}, limit=12)
+    batch += kp1
     # one batch (one driver run, one sharded model run); the evidence keeps one stream record per kind
     evaluate(ctx, binpath, batch, "random", nbudget=12 if not ctx.thorough else 40, by_kind=True)
     e2e = [gen_e2e(rng) for _ in range(30 * mult)]
